@@ -97,23 +97,24 @@ type known struct {
 
 func loadKnown() []known {
 	var ks []known
-	f, err := os.Open(filepath.Join(verifRoot, "known_findings.jsonl"))
+	f, err := os.Open(filepath.Join(verifRoot, "KNOWN_FINDINGS"))
 	if err != nil {
 		return nil
 	}
 	defer f.Close()
 	sc := bufio.NewScanner(f)
 	sc.Buffer(make([]byte, 1<<20), 1<<20)
+	re := regexp.MustCompile(`^known:\s+property=(\S+)\s+signature=(\S+)\s+(.*)$`)
 	for sc.Scan() {
 		line := strings.TrimSpace(sc.Text())
-		if line == "" || strings.HasPrefix(line, "#") {
-			continue
+		if line == "" || strings.HasPrefix(line, "#") || strings.HasPrefix(line, "fixed:") {
+			continue // fixed entries suppress nothing
 		}
-		var k known
-		if err := json.Unmarshal([]byte(line), &k); err != nil {
-			die("known_findings.jsonl: %v", err)
+		m := re.FindStringSubmatch(line)
+		if m == nil {
+			die("KNOWN_FINDINGS: cannot parse line %q", line)
 		}
-		ks = append(ks, k)
+		ks = append(ks, known{Status: "known", Property: m[1], Pattern: m[2], What: m[3]})
 	}
 	return ks
 }
